@@ -13,6 +13,15 @@ CHECKS = {
  'C14': dict(technique='TLC model checking of bounds safety (SgzReader!Call vs SgzApi!Ideal on out-of-range tuples) + replay on files with distinguishable padding',
              text='TLC enumerates every argument tuple with a component outside its range (just outside, far, negative, inside padding, empty, reversed) on all small geometries and checks that the modelled dispatch raises or yields only the real item Python indexing denotes; the same tuple families are replayed on real files whose padding decodes to values found nowhere in the real volume.',
              note='an empty array for an empty window and a clipped window are accepted (real samples only)', ref='7/C14'),
+ 'C15': dict(technique='TLC model checking of history independence over the cache state machine (MC_History) + replay of every TLC-enumerated history on real reader objects',
+             text='MC_History models what the code remembers between calls (class-level maxsize-1 loader caches keyed by loader instance and arguments, per-reader containing-chunk LRU of capacity K, close clearing every cache) and checks on every history up to depth D that the buffer served still has the provenance the current call means; every enumerated history is replayed on 2 readers + the emulator accessors with preload on/off and K in {1,2,default}, each result compared bitwise with the ideal selection of the reference decode.',
+             note='same result for exceptions means same class; cache hit/miss predictions are not part of the verdict', ref='7/C15'),
+ 'C17': dict(technique='TLC-modelled range-read sequences (validated against the measured ones) + exhaustive fault placement / completion-order replay on the real readers',
+             text='For each read method TLC gives the range-read sequence the model predicts on the real file (validated against the recorded one); a fault of each kind is injected at every position (plus pairs) on local and blob backends and the up-to-20 concurrent blob reads are released in every (<=4) or seeded permutation: a delivered fault must end in an exception, otherwise the result must be bitwise the ideal one. MC_Reader proves on small geometries that every byte a result depends on lies inside one of the modelled reads.',
+             note='any exception class counts as raising; calls run in forked workers, a crashed worker is a violation', ref='7/C17'),
+ 'C18': dict(technique='write sequences recorded at the open() seam, all prefixes/cuts and TLC-derived truncation classes replayed against every read call',
+             text='The write sequence of real conversions (NumPy, SEG-Y heuristic/thorough, 2-D) is recorded through the module-level open seam and checked to reproduce the file; every prefix (at and inside each write) and every truncation class of the finished file (offsets from SgzFormat via TLC: header, each block, each footer array, +-1, interior) is opened and every read call must raise or equal the complete file answer. MC_Reader proves that a returned value only depends on bytes inside the modelled reads, so a read that stays inside the partial file is complete.',
+             note='D23 (hash patched last) is a recorded known finding', ref='7/C18'),
 }
 checks = []
 for pid, c in CHECKS.items():
